@@ -6,7 +6,7 @@
    of the events that tools/translate extracts from rich/progress.py (gen/ProgressLock.v). *)
 From RichModel Require Import Prelude Progress SpecProgress.
 From RichGen Require Import ProgressLock.
-From RichProofs Require Import ProgressP ProgressConcP ProgressConcP2 ProgressSerP.
+From RichProofs Require Import ProgressP ProgressConcP ProgressConcP2 ProgressSerP ProgressMixP ProgressFloatP.
 From RichProofs.bridge Require BridgeProgress.   (* tie 1 (T2): Task.remaining/elapsed/finished/percentage/time_remaining regenerated from rich/progress.py *)
 From Coq Require Import QArith.
 
@@ -315,6 +315,75 @@ Example C12_ser_nonvacuous :
              [0; 0; 0; 1; 1; 1; 0; 0; 0]%nat in
   Ser.lock s = None /\ map t_completed (p_tasks (fst (Ser.sh s))) = [0 + 4 + 3]%Q.
 Proof. exact ser_nonvacuous. Qed.
+
+(* (12b) schedules MIXING advance / update / reset at EVENT granularity (model Progress.Mix over the finer
+   event lists regenerated from the source: the `+= advance` and `= completed` writes told apart, with
+   the `<arg> is not None` guard they sit under).  For every triple of event lists satisfying the static
+   discipline wfx_b, every schedule, any number of threads: at every step task.completed is the fold of
+   the writes performed so far (no += is lost or applied to a stale read), and at every quiescent point
+   those writes are exactly the ones of the calls in lock-acquisition order. *)
+Theorem C12_mixed_completed_any_disciplined_code : forall evA evU evR,
+  Mix.wfx_b evA = true -> Mix.wfx_b evU = true -> Mix.wfx_b evR = true ->
+  forall c0 progs sched,
+  let s := fst (Mix.srun evA evU evR (Mix.init_state c0 progs) sched) in
+  Mix.completed s = Mix.eval_log c0 (Mix.wlog s) /\
+  (Mix.lock s = None ->
+   Mix.completed s = Mix.eval_log c0 (concat (map (Mix.writes_of evA evU evR) (Mix.hist s)))).
+Proof.
+  intros evA evU evR A U R c0 progs sched s. split.
+  - exact (mixed_completed_every_step evA evU evR A U R c0 progs sched).
+  - exact (mixed_quiescent evA evU evR A U R c0 progs sched).
+Qed.
+Print Assumptions C12_mixed_completed_any_disciplined_code.
+
+(* for the lists regenerated from /repo (wfx_b by vm_compute; what each call writes = the property's
+   reading of the call, spec_writes, by computation) *)
+Theorem C12_mixed_no_lost_update : forall c0 progs sched,
+  let s := fst (Mix.srun advance_xevents update_xevents reset_xevents (Mix.init_state c0 progs) sched) in
+  Mix.completed s = Mix.eval_log c0 (Mix.wlog s) /\
+  (Mix.lock s = None -> Mix.completed s = Mix.eval_log c0 (concat (map Mix.spec_writes (Mix.hist s)))).
+Proof. exact mixed_no_lost_update. Qed.
+Print Assumptions C12_mixed_no_lost_update.
+
+(* the fold of the writes IS "last explicitly set value + sum of the advances since" *)
+Theorem C12_eval_log_is_last_set_plus_advances : forall c0 l,
+  Mix.eval_log c0 l = (fst (log_ref c0 l) + sumZ (snd (log_ref c0 l)))%Z.
+Proof. exact eval_log_is_last_set_plus_advances. Qed.
+Print Assumptions C12_eval_log_is_last_set_plus_advances.
+
+Example C12_mixed_nonvacuous :
+  let s := fst (Mix.srun advance_xevents update_xevents reset_xevents
+                  (Mix.init_state 5 [[Mix.MAdv 1; Mix.MUpd None None (Some 2)]; [Mix.MUpd None (Some 10) (Some 7); Mix.MAdv 3]]%Z)
+                  (concat (repeat [0; 1]%nat 120))) in
+  Mix.lock s = None /\ List.length (Mix.hist s) = 4%nat /\ Mix.completed s = Mix.eval_log 5 (Mix.wlog s).
+Proof. exact mixed_nonvacuous. Qed.
+
+(* (12c) FLOAT amounts.  Every `+=` rounds, so the identity of (1) is false of IEEE doubles (absorption);
+   what holds: if every observed value is within relative error u of the exact sum of the previous
+   observed value and the amount (IEEE round-to-nearest: u = 2^-53) and every set is exact -- the
+   condition float_accounting_ok_b, evaluated on the real object after every operation of float
+   histories -- then the distance to "last set + sum of advances" is at most u * sum |inputs of the
+   roundings|; with u = 0 (ints, Fractions) the identity is exact. *)
+Theorem C12_float_accounting : forall u c0 l, 0 <= u -> chain_ok_b u c0 l = true ->
+  Qabs.Qabs (chain_last c0 l - chain_exact c0 l) <= adds_bound u c0 l.
+Proof. exact float_accounting. Qed.
+Print Assumptions C12_float_accounting.
+
+Theorem C12_exact_accounting : forall c0 l, chain_ok_b 0 c0 l = true -> chain_last c0 l == chain_exact c0 l.
+Proof. exact exact_accounting. Qed.
+Print Assumptions C12_exact_accounting.
+
+(* 1e16, advance(1.0) twice: stays 1e16 (replayed on the real code: op float_witness) *)
+Theorem C12_float_exact_accounting_refuted : exists c0 l,
+  chain_ok_b u_binary64 c0 l = true /\ ~ chain_last c0 l == chain_exact c0 l.
+Proof. exact float_exact_accounting_refuted. Qed.
+Print Assumptions C12_float_exact_accounting_refuted.
+
+(* Task.speed uses iter()/next() (outside the T2 subset): its statement sequence is checked by the
+   translator and the number of skipped samples is regenerated; the hand model is for exactly one *)
+Theorem C12_speed_shape : SPEED_SKIP = 1%Z.
+Proof. exact speed_skip_one. Qed.
+Print Assumptions C12_speed_shape.
 
 (* (13) outside the property text, pinned down: a consumer that abandons the loop while holding the k-th
    element leaves completed = k - 1 (the count is of elements whose loop body finished) *)
